@@ -129,6 +129,30 @@ def run_residue(rep, prop, tier, bins, residue_set):
         rep.harness_errors.append('no dead-stack configuration could be built')
 
 
+def run_huge(rep, prop, tier, bins):
+    """Thorough only: a 4 GiB + 72 byte message in one update call against the same message in pieces (h_huge.c), six
+    algorithms in parallel; unsanitised optimised builds of two variants."""
+    from concurrent.futures import ThreadPoolExecutor
+    cfgs = [('huge:gcc-O2-nosimd', 'gcc', '-O2', 'nosimd'), ('huge:clang-O2-avx2', 'clang', '-O2', 'avx2')]
+    cfgs = [c for c in cfgs if c[3] in VARIANTS]
+
+    def build(cfg):
+        name, cc, opt, var = cfg
+        try:
+            return core.compile_c(prop, 'h_huge-' + name.split(':')[1], [os.path.join(HERE, 'h_huge.c')], flags=VARIANTS[var], cc=cc, opt=opt, san='none', quiet=True)
+        except core.BuildError:
+            return None
+    with ThreadPoolExecutor(max_workers=2) as ex:
+        built = list(ex.map(build, cfgs))
+    for (name, cc, opt, var), b in zip(cfgs, built):
+        if b is None:
+            rep.configs.append({'name': name, 'status': 'skipped: does not compile'})
+            continue
+        bins[name] = b
+        core.run_sharded(rep, b, tier, nshards=6, config=name, hang_s=900)
+        rep.configs.append({'name': name, 'cc': cc, 'opt': opt, 'flags': VARIANTS[var], 'status': 'ran'})
+
+
 def run_matrix(rep, prop, tier, source, binprefix, extra_flags=(), residue_set=None):
     """Reference material, python-side table checks, build every configuration in parallel, run each
     sharded, fill the model-checking evidence and finish (prints verdict lines, exits)."""
@@ -175,6 +199,8 @@ def run_matrix(rep, prop, tier, source, binprefix, extra_flags=(), residue_set=N
         rep.harness_errors.append('no configuration could be built')
     if residue_set is not None:
         run_residue(rep, prop, tier, bins, residue_set)
+    if tier == 'thorough' and prop == 'C04':
+        run_huge(rep, prop, tier, bins)
     if any('giving up' in n for n in rep.notes):
         rep.exhaustive = False
     m = rep.stats.get('_model', {})
